@@ -31,10 +31,62 @@ mod imp {
     fn pt() {
         sim::sched_point(sim::Site::Loc(Location::caller()));
     }
+    /// value <-> raw bits, for the store buffer of the weak-memory mode
+    pub trait Bits: Copy {
+        const SIZE: u8;
+        fn to_bits(self) -> u64;
+        fn from_bits(b: u64) -> Self;
+    }
+    impl Bits for bool {
+        const SIZE: u8 = 1;
+        fn to_bits(self) -> u64 {
+            self as u64
+        }
+        fn from_bits(b: u64) -> Self {
+            b != 0
+        }
+    }
+    impl Bits for u32 {
+        const SIZE: u8 = 4;
+        fn to_bits(self) -> u64 {
+            self as u64
+        }
+        fn from_bits(b: u64) -> Self {
+            b as u32
+        }
+    }
+    impl Bits for u64 {
+        const SIZE: u8 = 8;
+        fn to_bits(self) -> u64 {
+            self
+        }
+        fn from_bits(b: u64) -> Self {
+            b
+        }
+    }
+    impl Bits for usize {
+        const SIZE: u8 = 8;
+        fn to_bits(self) -> u64 {
+            self as u64
+        }
+        fn from_bits(b: u64) -> Self {
+            b as usize
+        }
+    }
+    /// before a read-modify-write / SeqCst access the thread's buffered stores become visible
+    #[inline]
+    fn drain_if_weak() {
+        if sim::weak() {
+            sim::flush_mine();
+        }
+    }
 
     #[track_caller]
     pub fn fence(o: Ordering) {
         pt();
+        if matches!(o, Ordering::SeqCst) {
+            drain_if_weak();
+        }
         hb::fence(o);
         sa::fence(o)
     }
@@ -48,6 +100,18 @@ mod imp {
                 #[track_caller]
                 pub fn load(&self, o: Ordering) -> $t {
                     pt();
+                    if sim::weak() {
+                        if matches!(o, Ordering::SeqCst) {
+                            sim::flush_seq_cst();
+                            if sim::has_pending_action() {
+                                sim::probe("weak.seqcst_load_passes_pending_unlock");
+                            }
+                        }
+                        if let Some(b) = sim::forwarded(self as *const _ as usize) {
+                            // store forwarding: a thread sees its own buffered store
+                            return <$t as Bits>::from_bits(b);
+                        }
+                    }
                     hb::atomic_load(self as *const _ as usize, o);
                     self.0.load(o)
                 }
@@ -55,17 +119,23 @@ mod imp {
                 pub fn store(&self, v: $t, o: Ordering) {
                     pt();
                     hb::atomic_store(self as *const _ as usize, o);
-                    self.0.store(v, o)
+                    if sim::weak() {
+                        sim::buffer_store(self as *const _ as usize, <$t as Bits>::SIZE, v.to_bits(), matches!(o, Ordering::SeqCst));
+                    } else {
+                        self.0.store(v, o)
+                    }
                 }
                 #[track_caller]
                 pub fn swap(&self, v: $t, o: Ordering) -> $t {
                     pt();
+                    drain_if_weak();
                     hb::atomic_rmw(self as *const _ as usize, o);
                     self.0.swap(v, o)
                 }
                 #[track_caller]
                 pub fn compare_exchange(&self, c: $t, n: $t, s: Ordering, f: Ordering) -> Result<$t, $t> {
                     pt();
+                    drain_if_weak();
                     let r = self.0.compare_exchange(c, n, s, f);
                     match r {
                         Ok(_) => hb::atomic_rmw(self as *const _ as usize, s),
@@ -78,14 +148,21 @@ mod imp {
                     self.compare_exchange(c, n, s, f)
                 }
                 pub fn get_mut(&mut self) -> &mut $t {
+                    sim::flush_range(self as *const _ as usize, 1);
                     self.0.get_mut()
                 }
                 pub fn into_inner(self) -> $t {
+                    sim::flush_range(&self as *const _ as usize, 1);
                     self.0.into_inner()
                 }
                 /// harness-only: read the value without a scheduling point and without creating a
                 /// happens-before edge
                 pub fn peek(&self) -> $t {
+                    if sim::weak() {
+                        if let Some(b) = sim::forwarded(self as *const _ as usize) {
+                            return <$t as Bits>::from_bits(b);
+                        }
+                    }
                     self.0.load(Ordering::Relaxed)
                 }
             }
@@ -101,36 +178,42 @@ mod imp {
                 #[track_caller]
                 pub fn fetch_add(&self, v: $t, o: Ordering) -> $t {
                     pt();
+                    drain_if_weak();
                     hb::atomic_rmw(self as *const _ as usize, o);
                     self.0.fetch_add(v, o)
                 }
                 #[track_caller]
                 pub fn fetch_sub(&self, v: $t, o: Ordering) -> $t {
                     pt();
+                    drain_if_weak();
                     hb::atomic_rmw(self as *const _ as usize, o);
                     self.0.fetch_sub(v, o)
                 }
                 #[track_caller]
                 pub fn fetch_max(&self, v: $t, o: Ordering) -> $t {
                     pt();
+                    drain_if_weak();
                     hb::atomic_rmw(self as *const _ as usize, o);
                     self.0.fetch_max(v, o)
                 }
                 #[track_caller]
                 pub fn fetch_min(&self, v: $t, o: Ordering) -> $t {
                     pt();
+                    drain_if_weak();
                     hb::atomic_rmw(self as *const _ as usize, o);
                     self.0.fetch_min(v, o)
                 }
                 #[track_caller]
                 pub fn fetch_or(&self, v: $t, o: Ordering) -> $t {
                     pt();
+                    drain_if_weak();
                     hb::atomic_rmw(self as *const _ as usize, o);
                     self.0.fetch_or(v, o)
                 }
                 #[track_caller]
                 pub fn fetch_and(&self, v: $t, o: Ordering) -> $t {
                     pt();
+                    drain_if_weak();
                     hb::atomic_rmw(self as *const _ as usize, o);
                     self.0.fetch_and(v, o)
                 }
@@ -149,12 +232,14 @@ mod imp {
         #[track_caller]
         pub fn fetch_or(&self, v: bool, o: Ordering) -> bool {
             pt();
+                    drain_if_weak();
             hb::atomic_rmw(self as *const _ as usize, o);
             self.0.fetch_or(v, o)
         }
         #[track_caller]
         pub fn fetch_and(&self, v: bool, o: Ordering) -> bool {
             pt();
+                    drain_if_weak();
             hb::atomic_rmw(self as *const _ as usize, o);
             self.0.fetch_and(v, o)
         }
@@ -170,6 +255,14 @@ mod imp {
         #[track_caller]
         pub fn load(&self, o: Ordering) -> *mut T {
             pt();
+            if sim::weak() {
+                if matches!(o, Ordering::SeqCst) {
+                    sim::flush_seq_cst();
+                }
+                if let Some(b) = sim::forwarded(self as *const _ as usize) {
+                    return b as usize as *mut T;
+                }
+            }
             hb::atomic_load(self as *const _ as usize, o);
             self.0.load(o)
         }
@@ -177,17 +270,23 @@ mod imp {
         pub fn store(&self, p: *mut T, o: Ordering) {
             pt();
             hb::atomic_store(self as *const _ as usize, o);
-            self.0.store(p, o)
+            if sim::weak() {
+                sim::buffer_store(self as *const _ as usize, 8, p as usize as u64, matches!(o, Ordering::SeqCst));
+            } else {
+                self.0.store(p, o)
+            }
         }
         #[track_caller]
         pub fn swap(&self, p: *mut T, o: Ordering) -> *mut T {
             pt();
+            drain_if_weak();
             hb::atomic_rmw(self as *const _ as usize, o);
             self.0.swap(p, o)
         }
         #[track_caller]
         pub fn compare_exchange(&self, c: *mut T, n: *mut T, s: Ordering, f: Ordering) -> Result<*mut T, *mut T> {
             pt();
+            drain_if_weak();
             let r = self.0.compare_exchange(c, n, s, f);
             match r {
                 Ok(_) => hb::atomic_rmw(self as *const _ as usize, s),
@@ -200,9 +299,11 @@ mod imp {
             self.compare_exchange(c, n, s, f)
         }
         pub fn get_mut(&mut self) -> &mut *mut T {
+            sim::flush_range(self as *const _ as usize, 1);
             self.0.get_mut()
         }
         pub fn into_inner(self) -> *mut T {
+            sim::flush_range(&self as *const _ as usize, 1);
             self.0.into_inner()
         }
         pub fn peek(&self) -> *mut T {
